@@ -220,7 +220,7 @@ SPEC = {
         "elab_rejects_assign_to_rvalue_form", "elab_rejects_increment_of_rvalue_form",
         "assignment_operands", "binary_operands_equal", "binop_rules",
         "elab_assign_exact", "elab_arith_exact", "elab_call_args_exact",
-        "out_arg_receives_cast"]] + [TX + n for n in [
+        "elab_out_args_are_lvalues", "out_arg_not_converted"]] + [TX + n for n in [
         # the extended language (swizzles, members, subscripts, constructors, intrinsic functions, statements)
         "elab_sound", "elab_debug_check_redundant", "elab_stmt_sound", "ids_in_range",
         "elab_rejects_const_write", "elab_rejects_rvalue_write", "elab_rejects_rvalue_out_arg",
@@ -233,13 +233,17 @@ SPEC = {
         "elab_rejects_index_type", "elab_index_exact", "elab_rejects_write_to_repeated_swizzle",
         "matrix_swizzle_at_most_four", "vector_swizzle_longer_than_four_accepted",
         "elab_rejects_const_write_chain", "elab_rejects_const_increment_chain", "elab_rejects_const_array_write_chain",
-        "elab_rejects_const_out_arg_chain", "elab_rejects_readonly_resource_write_chain", "elab_rejects_rvalue_write_chain_partial",
-        "elab_rejects_rvalue_out_arg_chain_partial",
+        "elab_rejects_const_out_arg_chain", "elab_rejects_readonly_resource_write_chain",
+        # fix batch 2: every object on the way to the written part must be a mutable lvalue
+        "elab_rejects_write_chain", "elab_rejects_increment_chain", "elab_rejects_out_arg_chain",
+        "elab_rejects_const_struct_write_chain", "elab_rejects_const_array_assignment",
+        "elab_rejects_rvalue_write_chain", "elab_rejects_rvalue_out_arg_chain",
+        "elab_assign_target_is_place", "elab_increment_operand_is_place", "elab_out_args_are_places",
+        "place_is_not_a_conversion",
         "assignment_operands", "binary_operands_equal", "binop_rules",
         "elab_assign_exact", "elab_arith_exact", "elab_call_args_exact", "elab_intrinsic_call_exact",
         "resource_index_widths", "resource_element_constness",
-        "swizzle_in_range", "matrix_swizzle_in_range", "member_of_struct", "ctor_slots_exact",
-        "const_struct_member_write_accepted", "rvalue_subscript_write_accepted", "const_array_assignment_accepted"]],
+        "swizzle_in_range", "matrix_swizzle_in_range", "member_of_struct", "ctor_slots_exact"]],
     "harness": "c03",
     "nontrivial": nontrivial,
     "finding_key": finding_key,
